@@ -236,10 +236,17 @@ PROPS = {
     },
     "C14": {
         "lean_modules": ["StimModel.Props.C14"],
+        "builds": ["asan"],
         "areas": [
-            {"area": "flow", "n": {"quick": 400, "thorough": 8000}, "replayable": True},
+            {"area": "flow", "n": {"quick": 400, "thorough": 8000}, "replayable": True, "builds": ["asan"]},
         ],
-        "rule": "TODO",
+        "rule": "random circuits on 2..4 qubits (unitary only; + measurements, resets, MPP, pair measurements, SPP; + feedback; + sweep controls, MPAD, noise incl. probability 1, "
+                "detectors, observables with record and Pauli targets, annotations, REPEAT), compacted; flows: products of 1..3 generators (valid), optionally extended to qubits beyond the circuit, "
+                "optionally with observables (traded for their records or just added), negative measurement indices, each perturbed (sign, one measurement toggled, one input/output letter, a measurement "
+                "listed twice more), random flows, out-of-range indices: sample_if_circuit_has_stabilizer_flows (256 samples) and check_if_circuit_has_unsigned_stabilizer_flows must both agree with the "
+                "Lean decision; batch calls must agree with single calls; circuit_flow_generators: every generator is a signed flow, the generators are independent and their number equals the dimension "
+                "of the model's flow space; solve_for_flow_measurements: a returned set makes the (unsigned) flow hold, 'no solution' only when the model's linear system has none; wide circuits (33..40 idle "
+                "qubits) through the implementation only, sanitizers on; distinct = distinct circuit texts",
         "trusted_base": [],
         "partial": [],
         "assumptions": [],
